@@ -260,6 +260,51 @@ fn full_alphabet(base: &BaseSpec) -> Vec<Action> {
     v
 }
 
+/// Shared transactions of the staggered-fork family (the operations between the base and the
+/// deeper fork points). Their commits get the side number 5 (6 for the second one).
+fn stagger_chain_alphabet(size: usize) -> Vec<Action> {
+    let v = vec![
+        Action::NewCommit { on: s("b") },
+        Action::SetBookmark { name: s("b1"), to: Some(s("c")) },
+        Action::Edit { ws: s("w2"), x: s("c") },
+        Action::SetTag { name: s("t"), to: Some(s("c")) },
+        Action::SetBookmark { name: s("b3"), to: Some(s("b")) },
+        Action::Describe { x: s("b") },
+        Action::New { ws: s("w2"), on: s("c") },
+        Action::Abandon { x: s("c") },
+        Action::NewCommit { on: s("c") },
+        Action::Rebase { x: s("c"), onto: s("a") },
+        Action::SetBookmark { name: s("b1"), to: None },
+        Action::Forget { ws: s("w2") },
+    ];
+    v.into_iter().take(size).collect()
+}
+
+/// Head actions of the staggered-fork family: they undo / redo what a shared transaction did
+/// (abandon or describe its commit n5, move or delete the bookmark, tag or working copy it
+/// set) or touch the same items from the base.
+fn stagger_head_alphabet(size: usize) -> Vec<Action> {
+    let v = vec![
+        Action::Abandon { x: s("n5") },
+        Action::SetBookmark { name: s("b1"), to: Some(s("a")) },
+        Action::NewCommit { on: s("b") },
+        Action::Edit { ws: s("w2"), x: s("a") },
+        Action::Describe { x: s("b") },
+        Action::SetTag { name: s("t"), to: Some(s("b")) },
+        Action::SetBookmark { name: s("b3"), to: None },
+        Action::Describe { x: s("n5") },
+        Action::SetBookmark { name: s("b1"), to: None },
+        Action::Abandon { x: s("b") },
+        Action::Forget { ws: s("w2") },
+        Action::SetTag { name: s("t"), to: None },
+        Action::NewCommit { on: s("n5") },
+        Action::SetBookmark { name: s("b3"), to: Some(s("c")) },
+        Action::Rebase { x: s("c"), onto: s("a") },
+        Action::Abandon { x: s("k5") },
+    ];
+    v.into_iter().take(size).collect()
+}
+
 /// First-round alphabet of the criss-cross shapes: actions that do not rewrite commits, so
 /// that the two first-round reconciliations usually are the same repository.
 fn first_round_alphabet(size: usize) -> Vec<Action> {
@@ -309,9 +354,19 @@ struct Case {
     /// criss-cross: the two reconciliations (sides in order 1,2 and 2,1) are extended by one
     /// action each (as sides 3 and 4) and reconciled again
     ext: Option<(Action, Action)>,
+    /// staggered fork points: a short linear chain of shared transactions on top of the base
+    /// operation; side k is forked from chain operation `depths[k-1]` (0 = the base operation)
+    #[serde(default, skip_serializing_if = "Option::is_none")]
+    stagger: Option<Stagger>,
     /// replay only: the single reconciliation to re-execute
     #[serde(default, skip_serializing_if = "Option::is_none")]
     reconciliation: Option<Recon>,
+}
+
+#[derive(Clone, Debug, Serialize, Deserialize)]
+struct Stagger {
+    chain: Vec<Action>,
+    depths: Vec<usize>,
 }
 
 #[derive(Clone, Debug, Serialize, Deserialize)]
@@ -713,10 +768,11 @@ fn run_side(
     at: &Operation,
     at_snap: &Snap,
     side: usize,
+    second: u32,
     action: &Action,
     stats: &Stats,
 ) -> Option<(Operation, Snap)> {
-    let loader = new_loader(world, 100 + side as u64, side as u32);
+    let loader = new_loader(world, 100 + side as u64, second);
     let repo = loader
         .load_at(at)
         .block_on()
@@ -752,6 +808,11 @@ struct Stats {
     merges_with_rebase: Counter,
     side_panics: Counter,
     created_checked: Counter,
+    created_then_hidden_downstream: Counter,
+    chain_value_superseded: Counter,
+    staggered: Counter,
+    staggered_judged: Counter,
+    hidden_commit_made_by_shared_transaction: Counter,
     hidden_checked: Counter,
     hidden_by_one_kept_descendant_of_other: Counter,
     ref_untouched: Counter,
@@ -793,9 +854,15 @@ fn ref_map<'s>(sn: &'s Snap, kind: &str) -> &'s BTreeMap<String, Terms> {
 }
 
 struct Judge<'a> {
+    /// the repository at the operation all heads descend from (= chain[0])
     base: &'a Snap,
     /// in reconciliation order
     sides: Vec<&'a Snap>,
+    /// linear chain of operations below the heads: chain[0] is the base, chain[k+1] is one
+    /// transaction on top of chain[k]. Flat cases have only chain[0].
+    chain: Vec<&'a Snap>,
+    /// depths[i] = index in `chain` of the operation side i was forked from
+    depths: Vec<usize>,
     merged: &'a Snap,
     union: BTreeMap<Id, CInfo>,
     stats: &'a Stats,
@@ -821,13 +888,85 @@ fn show_terms(j: &Judge, t: &Terms) -> String {
 
 impl<'a> Judge<'a> {
     fn new(base: &'a Snap, sides: Vec<&'a Snap>, merged: &'a Snap, stats: &'a Stats) -> Self {
+        let depths = vec![0; sides.len()];
+        Self::new_staggered(vec![base], sides, depths, merged, stats)
+    }
+
+    /// Heads forked at different operations of a linear chain: what a side changed is
+    /// relative to its own fork point, and the chain's own transactions are changes too.
+    fn new_staggered(
+        chain: Vec<&'a Snap>,
+        sides: Vec<&'a Snap>,
+        depths: Vec<usize>,
+        merged: &'a Snap,
+        stats: &'a Stats,
+    ) -> Self {
         let mut union = BTreeMap::new();
-        for sn in std::iter::once(base).chain(sides.iter().copied()).chain(std::iter::once(merged)) {
+        for sn in chain.iter().copied().chain(sides.iter().copied()).chain(std::iter::once(merged)) {
             for (id, info) in &sn.vis {
                 union.insert(id.clone(), info.clone());
             }
         }
-        Judge { base, sides, merged, union, stats, problems: vec![], flags: BTreeSet::new() }
+        let base = chain[0];
+        Judge { base, sides, chain, depths, merged, union, stats, problems: vec![], flags: BTreeSet::new() }
+    }
+
+    /// Every transaction below the reconciliation as (before, after, depth of `before` in the
+    /// chain, depth of `after` in the chain or usize::MAX for a head, label).
+    fn deltas(&self) -> Vec<(&'a Snap, &'a Snap, usize, usize, String)> {
+        let mut out = vec![];
+        for k in 1..self.chain.len() {
+            out.push((self.chain[k - 1], self.chain[k], k - 1, k, format!("the shared transaction #{k} below the heads")));
+        }
+        for (i, sn) in self.sides.iter().enumerate() {
+            out.push((self.chain[self.depths[i]], *sn, self.depths[i], usize::MAX, format!("side #{}", i + 1)));
+        }
+        out
+    }
+
+    fn inputs(&self) -> Vec<&'a Snap> {
+        self.chain.iter().copied().chain(self.sides.iter().copied()).collect()
+    }
+
+    fn in_some_fork_point(&self, id: &Id) -> bool {
+        self.chain.iter().any(|sn| sn.vis.contains_key(id))
+    }
+
+    /// The value of one item at the base and the values that are still candidates for the
+    /// result: per level of the chain, the values of the heads forked there plus what comes up
+    /// from the deeper level (its changed values, or the chain's own value if no deeper head
+    /// changed the item). In flat cases this is simply the sides' values in order.
+    fn live_values<T: Clone + PartialEq>(&self, get: impl Fn(&Snap) -> T) -> (T, Vec<T>) {
+        let top = self.chain.len() - 1;
+        let mut from_below: Option<Vec<T>> = None;
+        for k in (0..=top).rev() {
+            let mut vals: Vec<T> = vec![];
+            for (i, sn) in self.sides.iter().enumerate() {
+                if self.depths[i] == k {
+                    vals.push(get(sn));
+                }
+            }
+            if let Some(deeper) = from_below.take() {
+                let deeper_base = get(self.chain[k + 1]);
+                let mut distinct: Vec<T> = vec![];
+                for v in deeper.into_iter().filter(|v| *v != deeper_base) {
+                    if !distinct.contains(&v) {
+                        distinct.push(v);
+                    }
+                }
+                if distinct.is_empty() {
+                    vals.push(deeper_base);
+                } else {
+                    if deeper_base != get(self.chain[k]) {
+                        // a shared transaction changed the item and a head forked above it changed it again
+                        self.stats.chain_value_superseded.inc();
+                    }
+                    vals.extend(distinct);
+                }
+            }
+            from_below = Some(vals);
+        }
+        (get(self.chain[0]), from_below.unwrap())
     }
 
     fn name(&self, id: &Id) -> String {
@@ -843,17 +982,15 @@ impl<'a> Judge<'a> {
 
     /// Some side hid this base commit (rewrote or abandoned it).
     fn hidden_by_some_side(&self, id: &Id) -> bool {
-        self.base.vis.contains_key(id) && self.sides.iter().any(|sn| !sn.vis.contains_key(id))
+        self.deltas().iter().any(|(x, y, ..)| x.vis.contains_key(id) && !y.vis.contains_key(id))
     }
 
     /// Some side abandoned this base commit (hid it and has no other commit of its change).
     fn abandoned_by_some_side(&self, id: &Id) -> bool {
         let Some(info) = self.union.get(id) else { return false };
-        self.base.vis.contains_key(id)
-            && self
-                .sides
-                .iter()
-                .any(|sn| !sn.vis.contains_key(id) && !sn.vis.values().any(|c| c.change == info.change))
+        self.deltas().iter().any(|(x, y, ..)| {
+            x.vis.contains_key(id) && !y.vis.contains_key(id) && !y.vis.values().any(|c| c.change == info.change)
+        })
     }
 
     fn same_change_visible(&self, id: &Id) -> BTreeSet<Id> {
@@ -902,76 +1039,88 @@ impl<'a> Judge<'a> {
         }
         let Some(info) = self.union.get(id) else { return false };
         let rewriting_sides = self
-            .sides
+            .deltas()
             .iter()
-            .filter(|sn| !sn.vis.contains_key(id) && sn.vis.values().any(|c| c.change == info.change))
+            .filter(|(x, y, ..)| {
+                x.vis.contains_key(id) && !y.vis.contains_key(id) && y.vis.values().any(|c| c.change == info.change)
+            })
             .count();
         let children: Vec<&Id> =
             self.merged.vis.iter().filter(|(_, c)| c.parents.contains(id)).map(|(m, _)| m).collect();
         !children.is_empty()
             && children.iter().all(|c| {
-                if self.base.vis.contains_key(*c) {
+                let added_while_id_present = self
+                    .deltas()
+                    .iter()
+                    .any(|(x, y, ..)| !x.vis.contains_key(*c) && y.vis.contains_key(*c) && y.vis.contains_key(id));
+                if added_while_id_present && !self.hidden_by_some_side(c) {
+                    // a commit added by a transaction that still had `id`, on a divergently rewritten `id`
+                    rewriting_sides >= 2
+                } else {
                     // an old commit that is itself kept visible for the same reason
                     self.hidden_by_some_side(c) && self.explained_by_divergent_rewrite(c)
-                } else {
-                    // a commit added by a side that still had `id`, on a divergently rewritten `id`
-                    rewriting_sides >= 2
-                        && self.sides.iter().any(|sn| sn.vis.contains_key(*c) && sn.vis.contains_key(id))
                 }
             })
     }
 
     fn judge_commits(&mut self) {
-        let visible_in_some_side_only: Vec<(usize, Id)> = self
-            .sides
-            .iter()
-            .enumerate()
-            .flat_map(|(i, sn)| {
-                sn.vis.keys().filter(|id| !self.base.vis.contains_key(*id)).map(move |id| (i, id.clone()))
-            })
-            .collect();
-        // every commit a side created (or rewrote to) is kept, possibly rebased
-        for (i, id) in visible_in_some_side_only {
-            let info = self.union[&id].clone();
-            self.stats.created_checked.inc();
-            let kept = self
-                .merged
-                .vis
-                .values()
-                .any(|m| m.change == info.change && m.desc == info.desc && (m.own_file || !info.own_file));
-            if !kept {
-                let shape = if self.base.vis.values().any(|b| b.change == info.change) {
-                    "rewritten-commit-lost"
-                } else {
-                    "created-commit-lost"
-                };
-                self.fail(
-                    &format!("C13/commits/{shape}"),
-                    format!(
-                        "side #{} (in reconciliation order) made commit {} (change {}, description {:?}); no visible \
-                         commit of the reconciled repo carries that change with that description{}",
-                        i + 1,
-                        self.name(&id),
-                        info.change,
-                        info.desc,
-                        if info.own_file { " and its file" } else { "" }
-                    ),
-                );
+        let deltas = self.deltas();
+        // every commit a transaction created (or rewrote to) is kept, possibly rebased, unless a
+        // later transaction on top of it hid it again
+        for (x, y, _, to_depth, who) in &deltas {
+            for id in y.vis.keys() {
+                if x.vis.contains_key(id) {
+                    continue;
+                }
+                let hidden_later = deltas.iter().any(|(x2, y2, from2, ..)| {
+                    *to_depth != usize::MAX && *from2 >= *to_depth && x2.vis.contains_key(id) && !y2.vis.contains_key(id)
+                });
+                if hidden_later {
+                    self.stats.created_then_hidden_downstream.inc();
+                    continue;
+                }
+                let info = self.union[id].clone();
+                self.stats.created_checked.inc();
+                let kept = self
+                    .merged
+                    .vis
+                    .values()
+                    .any(|m| m.change == info.change && m.desc == info.desc && (m.own_file || !info.own_file));
+                if !kept {
+                    let shape = if x.vis.values().any(|b| b.change == info.change) {
+                        "rewritten-commit-lost"
+                    } else {
+                        "created-commit-lost"
+                    };
+                    self.fail(
+                        &format!("C13/commits/{shape}"),
+                        format!(
+                            "{who} (sides numbered in reconciliation order) made commit {} (change {}, description                              {:?}); no visible commit of the reconciled repo carries that change with that description{}",
+                            self.name(id),
+                            info.change,
+                            info.desc,
+                            if info.own_file { " and its file" } else { "" }
+                        ),
+                    );
+                }
             }
         }
-        // everything a side abandoned or rewrote is hidden
-        for (i, sn) in self.sides.clone().iter().enumerate() {
-            for id in self.base.vis.keys() {
-                if sn.vis.contains_key(id) {
+        // everything a transaction abandoned or rewrote is hidden
+        for (x, y, from_depth, _, who) in &deltas {
+            for id in x.vis.keys() {
+                if y.vis.contains_key(id) {
                     continue;
                 }
                 self.stats.hidden_checked.inc();
+                if *from_depth > 0 && !self.chain[0].vis.contains_key(id) {
+                    self.stats.hidden_commit_made_by_shared_transaction.inc();
+                }
                 if self.merged.vis.contains_key(id) {
                     let kept_by_descendant = self
                         .merged
                         .vis
                         .iter()
-                        .any(|(m, info)| info.parents.contains(id) && !self.base.vis.contains_key(m));
+                        .any(|(m, info)| info.parents.contains(id) && !self.in_some_fork_point(m));
                     let shape = if self.explained_by_divergent_rewrite(id) {
                         "below-child-after-divergent-rewrite"
                     } else if kept_by_descendant {
@@ -981,14 +1130,10 @@ impl<'a> Judge<'a> {
                     };
                     self.fail(
                         &format!("C13/commits/hidden-commit-{shape}"),
-                        format!(
-                            "side #{} abandoned or rewrote {}, but it is visible in the reconciled repo",
-                            i + 1,
-                            self.name(id)
-                        ),
+                        format!("{who} abandoned or rewrote {}, but it is visible in the reconciled repo", self.name(id)),
                     );
                 } else if self.sides.iter().any(|o| {
-                    o.vis.iter().any(|(oid, oinfo)| oinfo.parents.contains(id) && !self.base.vis.contains_key(oid))
+                    o.vis.iter().any(|(oid, oinfo)| oinfo.parents.contains(id) && !self.in_some_fork_point(oid))
                 }) {
                     self.stats.hidden_by_one_kept_descendant_of_other.inc();
                 }
@@ -1024,9 +1169,32 @@ impl<'a> Judge<'a> {
         for a in v.iter().step_by(2).flatten() {
             allowed.extend(self.follow_set(follow, a));
         }
+        let own_allowed = allowed.clone();
+        // staggered forks: the value is a rewrite of a commit a shared transaction pointed the ref
+        // at; a head forked below that transaction may have rewritten the same commit too, and the
+        // ref then follows both rewrites
+        let mut history_extends = false;
+        if follow && self.chain.len() > 1 {
+            let changes: BTreeSet<String> =
+                v.iter().step_by(2).flatten().filter_map(|a| self.union.get(a).map(|i| i.change.clone())).collect();
+            for k in 1..self.chain.len() {
+                let h = ref_map(self.chain[k], kind).get(name).cloned().unwrap_or_else(|| vec![None]);
+                for a in h.iter().step_by(2).flatten() {
+                    if self.union.get(a).is_some_and(|i| changes.contains(&i.change)) {
+                        let f = self.follow_set(follow, a);
+                        if !f.is_subset(&allowed) {
+                            history_extends = true;
+                        }
+                        allowed.extend(f);
+                    }
+                }
+            }
+        }
         let m_adds: Vec<&Id> = m.iter().step_by(2).flatten().collect();
-        let mut ok = !m_adds.is_empty() && m_adds.iter().all(|x| allowed.contains(*x));
-        if v.len() == 1 {
+        let mut ok = !m_adds.is_empty()
+            && m_adds.iter().all(|x| allowed.contains(*x))
+            && m_adds.iter().any(|x| own_allowed.contains(*x));
+        if v.len() == 1 && !history_extends {
             let r = self.follow_set(follow, v[0].as_ref().unwrap());
             if r.len() == 1 {
                 ok = *m == vec![Some(r.iter().next().unwrap().clone())];
@@ -1056,9 +1224,8 @@ impl<'a> Judge<'a> {
     fn judge_ref(&mut self, kind: &'static str, name: &str) {
         let follow = kind == "bookmark";
         let get = |sn: &Snap| -> Terms { ref_map(sn, kind).get(name).cloned().unwrap_or_else(|| vec![None]) };
-        let b = get(self.base);
         let m = get(self.merged);
-        let vals: Vec<Terms> = self.sides.iter().map(|sn| get(sn)).collect();
+        let (b, vals): (Terms, Vec<Terms>) = self.live_values(&get);
         let mut distinct: Vec<Terms> = vec![];
         for v in vals.iter().filter(|v| **v != b) {
             if !distinct.contains(v) {
@@ -1232,9 +1399,12 @@ impl<'a> Judge<'a> {
     }
 
     fn judge_wc(&mut self, ws: &str) {
-        let b = self.base.wcs.get(ws).cloned();
         let m = self.merged.wcs.get(ws).cloned();
-        let vals: Vec<Option<Id>> = self.sides.iter().map(|sn| sn.wcs.get(ws).cloned()).collect();
+        let (b, vals): (Option<Id>, Vec<Option<Id>>) = self.live_values(|sn: &Snap| sn.wcs.get(ws).cloned());
+        // with heads forked at one operation the documented rule names the winner; with staggered
+        // fork points the side whose value is "self" at each step is not a head, so any of the
+        // candidate values is accepted there
+        let strict_order = self.chain.len() == 1;
         let changed: Vec<&Option<Id>> = vals.iter().filter(|v| **v != b).collect();
         let nm = |j: &Judge, x: &Option<Id>| x.as_ref().map_or("absent".to_string(), |i| j.name(i));
         if changed.is_empty() {
@@ -1270,49 +1440,71 @@ impl<'a> Judge<'a> {
             self.stats.wc_one_side.inc();
         }
         // documented rule: on conflict the side reconciled first keeps its working copy
-        let v = changed[0].clone().unwrap();
         let sig = if distinct.len() > 1 { "C13/wc/conflict-rule" } else { "C13/wc/one-side-change-lost" };
+        let mut candidates: Vec<Id> = if strict_order {
+            vec![changed[0].clone().unwrap()]
+        } else {
+            distinct.iter().map(|v| (**v).clone().unwrap()).collect()
+        };
+        if !strict_order && distinct.len() > 1 {
+            // in a conflict the value a shared transaction set may be the "self" value that wins
+            for k in 1..self.chain.len() {
+                if let Some(h) = self.chain[k].wcs.get(ws) {
+                    if !candidates.contains(h) {
+                        candidates.push(h.clone());
+                    }
+                }
+            }
+        }
         let Some(mid) = m.clone() else {
-            let msg = format!("workspace {ws}: expected {} (followed), but the workspace is gone", self.name(&v));
+            let msg = format!("workspace {ws}: expected {} (followed), but the workspace is gone", self.name(&candidates[0]));
             self.fail(sig, msg);
             return;
         };
-        let visible = self.merged.vis.contains_key(&v);
-        let ok = if visible && !self.hidden_by_some_side(&v) {
-            mid == v
-        } else {
-            let info = self.union[&v].clone();
-            let same_change = self.same_change_visible(&v);
-            let may_be_recreated = (same_change.is_empty() && !visible) || self.abandoned_by_some_side(&v);
-            if (visible && mid == v) || same_change.contains(&mid) {
-                self.stats.wc_followed_rewrite.inc();
-                true
-            } else if may_be_recreated {
-                // abandoned by another side: a new commit on top of the (followed) parents
-                let allowed_parents: BTreeSet<Id> = info.parents.iter().flat_map(|p| self.repl(p)).collect();
-                let fresh = !self.base.vis.contains_key(&mid) && self.sides.iter().all(|sn| !sn.vis.contains_key(&mid));
-                match self.merged.vis.get(&mid) {
-                    Some(mi)
-                        if fresh
-                            && mi.change.starts_with('~')
-                            && !mi.parents.is_empty()
-                            && mi.parents.iter().all(|p| allowed_parents.contains(p)) =>
-                    {
-                        self.stats.wc_recreated.inc();
-                        true
-                    }
-                    _ => false,
-                }
+        let mut ok = false;
+        for v in &candidates {
+            let visible = self.merged.vis.contains_key(v);
+            let this_ok = if visible && !self.hidden_by_some_side(v) {
+                mid == *v
             } else {
-                false
+                let info = self.union[v].clone();
+                let same_change = self.same_change_visible(v);
+                let may_be_recreated = (same_change.is_empty() && !visible) || self.abandoned_by_some_side(v);
+                if (visible && mid == *v) || same_change.contains(&mid) {
+                    self.stats.wc_followed_rewrite.inc();
+                    true
+                } else if may_be_recreated {
+                    // abandoned by another side: a new commit on top of the (followed) parents
+                    let allowed_parents: BTreeSet<Id> = info.parents.iter().flat_map(|p| self.repl(p)).collect();
+                    let fresh = self.inputs().iter().all(|sn| !sn.vis.contains_key(&mid));
+                    match self.merged.vis.get(&mid) {
+                        Some(mi)
+                            if fresh
+                                && mi.change.starts_with('~')
+                                && !mi.parents.is_empty()
+                                && mi.parents.iter().all(|p| allowed_parents.contains(p)) =>
+                        {
+                            self.stats.wc_recreated.inc();
+                            true
+                        }
+                        _ => false,
+                    }
+                } else {
+                    false
+                }
+            };
+            if this_ok {
+                ok = true;
+                break;
             }
-        };
+        }
         if !ok {
             let msg = format!(
-                "workspace {ws}: base {}, sides (in reconciliation order) {}, expected {} (followed through rewrites), result {}",
+                "workspace {ws}: base {}, candidate values (sides in reconciliation order) {}, expected {} (followed \
+                 through rewrites), result {}",
                 nm(self, &b),
                 vals.iter().map(|x| nm(self, x)).collect::<Vec<_>>().join(" / "),
-                self.name(&v),
+                candidates.iter().map(|x| self.name(x)).collect::<Vec<_>>().join(" or "),
                 nm(self, &m)
             );
             self.fail(sig, msg);
@@ -1325,7 +1517,7 @@ impl<'a> Judge<'a> {
         let mut tag_names: BTreeSet<String> = BTreeSet::new();
         let mut remote_names: BTreeSet<String> = BTreeSet::new();
         let mut ws_names: BTreeSet<String> = BTreeSet::new();
-        for sn in std::iter::once(self.base).chain(self.sides.iter().copied()).chain(std::iter::once(self.merged)) {
+        for sn in self.inputs().into_iter().chain(std::iter::once(self.merged)) {
             names.extend(sn.bookmarks.keys().cloned());
             tag_names.extend(sn.tags.keys().cloned());
             remote_names.extend(sn.remotes.keys().cloned());
@@ -1426,7 +1618,151 @@ fn reconcile(
     Ok(res)
 }
 
+/// Heads forked at different operations of a short linear chain on top of the base operation.
+fn run_staggered(case: &Case, stagger: &Stagger, stats: &Stats) -> Outcome {
+    let case_value = serde_json::to_value(case).unwrap();
+    let mut out = Outcome {
+        violations: vec![],
+        canonical_states: vec![],
+        applicable: true,
+        order_dependent_unexplained: false,
+        interacting: false,
+    };
+    stats.cases.inc();
+    stats.staggered.inc();
+    let world = build_base(&case.base);
+    let mut chain_snaps: Vec<Snap> = vec![snapshot(&world.base_repo)];
+    let mut chain_ops: Vec<Operation> = vec![world.base_repo.operation().clone()];
+    for (k, action) in stagger.chain.iter().enumerate() {
+        // shared transactions: sides 5, 6 at seconds 1, 2 (children are always later than parents)
+        match run_side(&world, &chain_ops[k], &chain_snaps[k], 5 + k, (k + 1) as u32, action, stats) {
+            Some((op, snap)) => {
+                chain_ops.push(op);
+                chain_snaps.push(snap);
+            }
+            None => {
+                stats.cases_not_applicable.inc();
+                out.applicable = false;
+                return out;
+            }
+        }
+    }
+    let mut side_ops: Vec<Operation> = vec![];
+    let mut side_snaps: Vec<Snap> = vec![];
+    for (i, action) in case.sides.iter().enumerate() {
+        let d = stagger.depths[i];
+        match run_side(&world, &chain_ops[d], &chain_snaps[d], i + 1, 10 + i as u32, action, stats) {
+            Some((op, snap)) => {
+                side_ops.push(op);
+                side_snaps.push(snap);
+            }
+            None => {
+                stats.cases_not_applicable.inc();
+                out.applicable = false;
+                return out;
+            }
+        }
+    }
+    stats.staggered_judged.inc();
+    let k = side_ops.len();
+    let mut canon: Vec<(String, BTreeSet<&'static str>)> = vec![];
+    let mut judge = |order: &[usize], merged: &Arc<ReadonlyRepo>, what: &str, out: &mut Outcome| {
+        let msnap = snapshot(merged);
+        let sides: Vec<&Snap> = order.iter().map(|&i| &side_snaps[i]).collect();
+        let depths: Vec<usize> = order.iter().map(|&i| stagger.depths[i]).collect();
+        let j = Judge::new_staggered(chain_snaps.iter().collect(), sides, depths, &msnap, stats);
+        let union = j.union.clone();
+        let order1: Vec<usize> = order.iter().map(|i| i + 1).collect();
+        let (problems, flags) = j.run();
+        for (sig, msg) in problems {
+            let mut c = case_value.clone();
+            c["reconciliation"] = json!({"via": what, "order": order1});
+            out.violations.push((sig, format!("[staggered forks, {what}, order {order1:?}] {msg}"), c));
+        }
+        canon.push((canonical(&msnap, &union), flags));
+    };
+    let wanted = |via: &str, order: &[usize]| -> bool {
+        match &case.reconciliation {
+            None => true,
+            Some(r) => r.via == via && r.order == order.iter().map(|i| i + 1).collect::<Vec<_>>(),
+        }
+    };
+    for (pi, perm) in permutations(k).iter().enumerate() {
+        if !wanted("merge_operations", perm) {
+            continue;
+        }
+        let ops: Vec<Operation> = perm.iter().map(|&i| side_ops[i].clone()).collect();
+        match reconcile(&world, 200 + pi as u64, ops, stats) {
+            Ok((merged, n_rebased)) => {
+                if n_rebased > 0 {
+                    out.interacting = true;
+                }
+                judge(perm, &merged, "merge_operations", &mut out);
+            }
+            Err((sig, msg)) => {
+                let mut c = case_value.clone();
+                c["reconciliation"] =
+                    json!({"via": "merge_operations", "order": perm.iter().map(|i| i + 1).collect::<Vec<_>>()});
+                out.violations.push((sig, msg, c));
+            }
+        }
+    }
+    if case.reconciliation.as_ref().is_none_or(|r| r.via == "load_at_head") {
+        let loader = new_loader(&world, 300, 59);
+        stats.merges.inc();
+        stats.load_at_head.inc();
+        match catch(|| loader.load_at_head().block_on()) {
+            Err(e) => out.violations.push(("C13/load-at-head/panic".into(), e, case_value.clone())),
+            Ok(Err(e)) => out.violations.push(("C13/load-at-head/error".into(), format!("{e:?}"), case_value.clone())),
+            Ok(Ok(merged)) => {
+                let order: Option<Vec<usize>> = merged
+                    .operation()
+                    .parent_ids()
+                    .iter()
+                    .map(|p| side_ops.iter().position(|o| o.id() == p))
+                    .collect();
+                match order {
+                    Some(order) if order.len() == k => judge(&order, &merged, "load_at_head", &mut out),
+                    _ => out.violations.push((
+                        "C13/load-at-head/heads-not-all-merged".into(),
+                        format!(
+                            "load_at_head produced an operation whose parents are not exactly the {k} concurrent operations"
+                        ),
+                        case_value.clone(),
+                    )),
+                }
+            }
+        }
+    }
+    drop(judge);
+    if canon.iter().any(|(_, f)| !f.is_empty()) {
+        out.interacting = true;
+    }
+    if let Some((first, _)) = canon.first() {
+        if canon.iter().any(|(c, _)| c != first) {
+            stats.order_dependent.inc();
+            let flags: BTreeSet<&'static str> = canon.iter().flat_map(|(_, f)| f.iter().copied()).collect();
+            if flags.is_empty() {
+                stats.order_dependent_unexplained.inc();
+                out.order_dependent_unexplained = true;
+            }
+            for f in flags {
+                match f {
+                    "ref-conflict" => stats.order_dependent_ref_conflict.inc(),
+                    "wc-conflict" => stats.order_dependent_wc_conflict.inc(),
+                    _ => stats.order_dependent_divergent.inc(),
+                }
+            }
+        }
+    }
+    out.canonical_states = canon.into_iter().map(|(c, _)| c).collect();
+    out
+}
+
 fn run_case(case: &Case, stats: &Stats) -> Outcome {
+    if let Some(stagger) = &case.stagger {
+        return run_staggered(case, stagger, stats);
+    }
     let case_value = serde_json::to_value(case).unwrap();
     let mut out = Outcome { violations: vec![], canonical_states: vec![], applicable: true, order_dependent_unexplained: false, interacting: false };
     stats.cases.inc();
@@ -1436,7 +1772,7 @@ fn run_case(case: &Case, stats: &Stats) -> Outcome {
     let mut side_ops: Vec<Operation> = vec![];
     let mut side_snaps: Vec<Snap> = vec![];
     for (i, action) in case.sides.iter().enumerate() {
-        match run_side(&world, &base_op, &base_snap, i + 1, action, stats) {
+        match run_side(&world, &base_op, &base_snap, i + 1, (i + 1) as u32, action, stats) {
             Some((op, snap)) => {
                 side_ops.push(op);
                 side_snaps.push(snap);
@@ -1593,8 +1929,8 @@ fn run_case(case: &Case, stats: &Stats) -> Outcome {
         return out;
     }
     let x_snap = snapshot(&x);
-    let xc = run_side(&world, x.operation(), &x_snap, 3, &ext_x, stats);
-    let yd = run_side(&world, y.operation(), &x_snap, 4, &ext_y, stats);
+    let xc = run_side(&world, x.operation(), &x_snap, 3, 35, &ext_x, stats);
+    let yd = run_side(&world, y.operation(), &x_snap, 4, 36, &ext_y, stats);
     let (Some((op_xc, snap_xc)), Some((op_yd, snap_yd))) = (xc, yd) else {
         stats.cases_not_applicable.inc();
         out.applicable = false;
@@ -1683,7 +2019,7 @@ fn main() {
         let alpha = full_alphabet(base);
         for a in &alpha {
             for b in &alpha {
-                cases.push(Case { base: (*base).clone(), sides: vec![a.clone(), b.clone()], ext: None, reconciliation: None });
+                cases.push(Case { base: (*base).clone(), sides: vec![a.clone(), b.clone()], ext: None, stagger: None, reconciliation: None });
             }
         }
     }
@@ -1696,6 +2032,7 @@ fn main() {
                         base: (*base).clone(),
                         sides: vec![a.clone(), b.clone(), c.clone()],
                         ext: None,
+                        stagger: None,
                         reconciliation: None,
                     });
                 }
@@ -1712,7 +2049,8 @@ fn main() {
                             base: (*base).clone(),
                             sides: vec![a.clone(), b.clone()],
                             ext: Some((c.clone(), d.clone())),
-                            reconciliation: None,
+                            stagger: None,
+                        reconciliation: None,
                         });
                     }
                 }
@@ -1720,6 +2058,43 @@ fn main() {
         }
     }
     let n_cross = cases.len() - n_pairs - n_triples;
+    // staggered fork points: (base, chain length, depths of the sides, chain alphabet, head alphabet)
+    let mut stagger_sets: Vec<(&BaseSpec, usize, Vec<usize>, Vec<Action>, Vec<Action>)> = vec![];
+    if ctx.quick() {
+        stagger_sets.push((&family[0], 1, vec![0, 1, 1], stagger_chain_alphabet(5), stagger_head_alphabet(6)));
+        stagger_sets.push((&family[0], 1, vec![0, 0, 1], stagger_chain_alphabet(5), stagger_head_alphabet(6)));
+        stagger_sets.push((&family[0], 2, vec![0, 1, 2], stagger_chain_alphabet(3), stagger_head_alphabet(5)));
+        stagger_sets.push((&family[0], 1, vec![0, 1], stagger_chain_alphabet(6), stagger_head_alphabet(10)));
+    } else {
+        for b in [0usize, 1] {
+            stagger_sets.push((&family[b], 1, vec![0, 1, 1], stagger_chain_alphabet(10), stagger_head_alphabet(12)));
+        }
+        stagger_sets.push((&family[0], 1, vec![0, 0, 1], stagger_chain_alphabet(10), stagger_head_alphabet(12)));
+        stagger_sets.push((&family[0], 2, vec![0, 1, 2], stagger_chain_alphabet(6), stagger_head_alphabet(8)));
+        stagger_sets.push((&family[0], 2, vec![0, 2, 2], stagger_chain_alphabet(5), stagger_head_alphabet(7)));
+        stagger_sets.push((&family[0], 1, vec![0, 1], stagger_chain_alphabet(12), stagger_head_alphabet(16)));
+        stagger_sets.push((&family[2], 1, vec![0, 1], stagger_chain_alphabet(12), stagger_head_alphabet(16)));
+    }
+    for (base, chain_len, depths, chain_alpha, head_alpha) in &stagger_sets {
+        let mut chains: Vec<Vec<Action>> = vec![];
+        vcommon::enumerate::odometer(&vec![chain_alpha.len(); *chain_len], |t| {
+            chains.push(t.iter().map(|&i| chain_alpha[i].clone()).collect());
+            true
+        });
+        for chain in &chains {
+            vcommon::enumerate::odometer(&vec![head_alpha.len(); depths.len()], |t| {
+                cases.push(Case {
+                    base: (*base).clone(),
+                    sides: t.iter().map(|&i| head_alpha[i].clone()).collect(),
+                    ext: None,
+                    stagger: Some(Stagger { chain: chain.clone(), depths: depths.clone() }),
+                    reconciliation: None,
+                });
+                true
+            });
+        }
+    }
+    let n_stagger = cases.len() - n_pairs - n_triples - n_cross;
     stats.triples.add(n_triples as u64);
 
     // determinism gate: the same case twice must give the same observations
@@ -1734,6 +2109,7 @@ fn main() {
 
     let samples = Samples::new(3);
     let samples_triples = Samples::new(3);
+    let samples_stagger = Samples::new(3);
     let applicable_cases = Counter::new();
     let states: std::sync::Mutex<BTreeSet<u64>> = std::sync::Mutex::new(BTreeSet::new());
     let per_action: std::sync::Mutex<BTreeMap<String, (u64, u64)>> = std::sync::Mutex::new(BTreeMap::new());
@@ -1743,7 +2119,7 @@ fn main() {
     cases.par_iter().for_each(|case| {
         let out = run_case(case, &stats);
         if out.order_dependent_unexplained {
-            let v = json!({"base": case.base.name, "sides": case.sides, "ext": case.ext});
+            let v = json!({"base": case.base.name, "sides": case.sides, "ext": case.ext, "stagger": case.stagger});
             order_examples.lock().unwrap().push(v.to_string());
         }
         {
@@ -1764,7 +2140,9 @@ fn main() {
             applicable_cases.inc();
             if out.interacting {
                 nontrivial.inc();
-                if (case.sides.len() == 3 && samples_triples.wants_more()) || case.ext.is_some() {
+                if case.stagger.is_some() {
+                    samples_stagger.offer(|| json!({"base": case.base.name, "sides": case.sides, "stagger": case.stagger}));
+                } else if (case.sides.len() == 3 && samples_triples.wants_more()) || case.ext.is_some() {
                     let which = if case.ext.is_some() { &samples } else { &samples_triples };
                     which.offer(|| json!({"base": case.base.name, "sides": case.sides, "ext": case.ext}));
                 }
@@ -1792,6 +2170,9 @@ fn main() {
         ("working-copy conflicts", stats.wc_conflict_first_wins.get()),
         ("workspace removal against a change", stats.wc_removal_wins.get()),
         ("criss-cross with several common ancestors", stats.crisscross_multi_ancestor.get()),
+        ("staggered forks: a head hid a commit made by a shared transaction", stats.hidden_commit_made_by_shared_transaction.get()),
+        ("staggered forks: created commit hidden again by a later transaction", stats.created_then_hidden_downstream.get()),
+        ("staggered forks: a head changed again what a shared transaction changed", stats.chain_value_superseded.get()),
         ("hidden commit with a child created by another side", stats.hidden_by_one_kept_descendant_of_other.get()),
     ];
     if unexpected.get() == 0 {
@@ -1823,6 +2204,15 @@ fn main() {
     extra.insert("cases_pairs".into(), json!(n_pairs));
     extra.insert("cases_triples".into(), json!(n_triples));
     extra.insert("cases_crisscross".into(), json!(n_cross));
+    extra.insert("cases_staggered_forks".into(), json!(n_stagger));
+    extra.insert("cases_staggered_forks_judged".into(), json!(stats.staggered_judged.get()));
+    extra.insert(
+        "staggered_fork_sets".into(),
+        json!(stagger_sets
+            .iter()
+            .map(|(b, l, d, ca, ha)| json!({"base": b.name, "shared_transactions": l, "fork_depth_of_sides": d, "chain_alphabet": ca.len(), "head_alphabet": ha.len()}))
+            .collect::<Vec<_>>()),
+    );
     extra.insert("cases_not_applicable".into(), json!(stats.cases_not_applicable.get()));
     extra.insert("cases_applicable".into(), json!(applicable_cases.get()));
     extra.insert("crisscross_skipped_differing_views".into(), json!(stats.crisscross_skipped_differing_views.get()));
@@ -1835,6 +2225,9 @@ fn main() {
         "oracle_clauses_exercised".into(),
         json!({
             "created_or_rewritten_commit_kept": stats.created_checked.get(),
+            "staggered_created_commit_hidden_again_downstream": stats.created_then_hidden_downstream.get(),
+            "staggered_head_hid_commit_of_shared_transaction": stats.hidden_commit_made_by_shared_transaction.get(),
+            "staggered_head_changed_again_what_shared_transaction_changed": stats.chain_value_superseded.get(),
             "abandoned_or_rewritten_commit_hidden": stats.hidden_checked.get(),
             "hidden_commit_had_child_from_other_side": stats.hidden_by_one_kept_descendant_of_other.get(),
             "ref_untouched": stats.ref_untouched.get(),
@@ -1885,14 +2278,15 @@ fn main() {
         distinct_nontrivial: nontrivial.get(),
         rule: "every ordered pair of actions of the full alphabet on each pair base, every ordered triple of the \
                triple alphabet on each triple base, every (pair, pair of extensions) criss-cross shape of the \
-               criss-cross alphabets; each reconciled in every order of the operation heads through \
+               criss-cross alphabets, every (shared transactions, heads) combination of each staggered-fork set \
+               (heads forked at different operations of a 1-2 step chain); each reconciled in every order of the operation heads through \
                merge_operations plus once through load_at_head. A case counts when all its actions are applicable \
                (divergent operation heads really exist); non-trivial = in addition some reconciliation rebased \
                commits, recorded a ref conflict, kept a divergent change or had to choose between two working-copy \
                values (the sides interacted); states = distinct id-free reconciled repositories, transitions = \
                reconciliations executed by the real code"
             .into(),
-        samples: samples_triples.take().into_iter().chain(samples.take()).collect(),
+        samples: samples_triples.take().into_iter().chain(samples.take()).chain(samples_stagger.take()).collect(),
         exhaustive: true,
         states: Some(n_states),
         transitions: Some(merges),
